@@ -16,6 +16,7 @@ PANTR × Newton-TR (finite differences and exact ∇²ψ·v), FISTA.
 import math
 import os
 import sys
+import random
 from fractions import Fraction as Fr
 
 sys.path.insert(0, os.path.dirname(os.path.abspath(__file__)))
@@ -77,7 +78,7 @@ def gen_feasible_problem(rng, convex=None, n=None, m=None):
     return p
 
 
-def gen_alm_op(rng, stack=None, **over):
+def gen_alm_op(rng, stack=None, force_iso=False, **over):
     stack = stack or rng.choice(STACKS)
     convex = rng.random() < 0.7
     cnewton = stack.endswith('-cnewton')
@@ -91,7 +92,7 @@ def gen_alm_op(rng, stack=None, **over):
         # non-default switches of the line-search solvers (keys a stack does not have are ignored)
         extra.update(eager=str(rng.choice([0, 1, 1])), recomp=str(rng.choice([0, 0, 1])),
                      updcand=str(rng.choice([0, 0, 1])), updprox=str(rng.choice([0, 0, 1])))
-    if rng.random() < 0.2 and not cnewton:
+    if (force_iso or rng.random() < 0.2) and not cnewton:
         # isotropic family: f = q/2·‖x‖² + cᵀx (no quartic term), few / no general constraints, and a
         # user Lipschitz estimate L_0 = Lγ_factor·q, so that the *rejected* first step x̂(1/q) of the
         # initial step-size backtracking is the exact box-constrained minimiser (ψ has curvature q)
@@ -103,7 +104,8 @@ def gen_alm_op(rng, stack=None, **over):
         if p['m']:
             # keep D around g(x_feas) of the *new* f-independent g: g does not depend on Q, q4
             pass
-        extra.update(L0=f2h(0.95 * q * rng.choice([1.0, 1.0, 0.5])), eager=str(rng.choice([1, 1, 0])))
+        extra.update(L0=f2h(0.95 * q * (1.0 if force_iso else rng.choice([1.0, 1.0, 0.5]))),
+                     eager='1' if force_iso else str(rng.choice([1, 1, 0])))
     st = S.gen_start(rng, p)
     tol = rng.choice([1e-4, 1e-6, 1e-8])
     dtol = rng.choice([1e-4, 1e-6, 1e-8])
@@ -355,6 +357,13 @@ def main(argv):
 
     def gen_ops(rng, n):
         ops = []
+        # fixed class run first on every seed: isotropic f, user L_0 = Lγ_factor·q, eager gradients — the
+        # rejected first step of the initial step-size loop is the exact minimiser, so any stale data
+        # surviving that loop makes the solver report Converged at a non-stationary point
+        fixed = random.Random(20240930)
+        for k in range(24):
+            ops.append(gen_alm_op(fixed, stack=['panoc-lbfgs', 'panoc-slbfgs', 'panoc-anderson', 'panoc-noop',
+                                                'zerofpr-lbfgs', 'zerofpr-noop'][k % 6], force_iso=True).line())
         for k in range(n):
             ops.append(gen_alm_op(rng, stack=STACKS[k % len(STACKS)]).line())
         for k in range(max(60, n // 10)):
